@@ -127,6 +127,7 @@ def register(reg):
     _register_prune(reg)
     _register_proof(reg)
     _register_get_proof(reg)
+    _register_proof_lemma(reg)
     _register_at_root(reg)
 
 
@@ -309,7 +310,9 @@ def tf_inv(E, fr, _i):
     SL.use(E, "concat_empty", rem, ks)
     oh = one_hop(D0, K)
     reveal_child_at(E, D0, K[0])
-    return [("view", mk_bool(view_eq(E, node, rem, D0, K, ks))),
+    HM.unfold_hneed(E, Dn, rem, GQ)
+    return [("needed-below-here-is-needed-from-the-start", mk_bool(z3.Implies(HM.hneed(Dn, rem, GQ), HM.hneed(D0, K, GQ)))),
+            ("view", mk_bool(view_eq(E, node, rem, D0, K, ks))),
             ("remaining-is-a-suffix", mk_bool(suffix_of(rem, K))),
             ("node-well-formed", mk_bool(HM.hwfp(Dn))),
             ("one-hop-not-taken-yet", mk_bool(z3.Implies(z3.And(oh, z3.Length(rem) > 0), z3.And(rem == K, Dn == D0)))),
@@ -357,7 +360,18 @@ def tf_cases(E, ctx):
                  exc=lambda e: missing_clauses(E, e, ctx.old_has(db), D0, K, E.ghost.get("ks")))]
 
 
-def missing_clauses(E, e, old_has, D0, K, ks, at=(0, 1)):
+GQ = z3.Const("h!need", SeqI)      # ghost: an arbitrary node hash (the structural `needed` clause is proved for it)
+
+
+def need_cond(E, D0, K, root, x):
+    """the hashed node x is the root or is dereferenced by a walk of K below D0 -- and is not the blank root"""
+    c = HM.hneed(D0, K, x)
+    if root is not None:
+        c = z3.Or(x == root, c)
+    return z3.And(x != HM.blank_node_hash(E), c)
+
+
+def missing_clauses(E, e, old_has, D0, K, ks, at=(0, 1), need=False, root=None, direct=False):
     """what a MissingTraversalNode(h, used) / MissingTrieNode(h, root, key, used) raised by a walk from D0 along K
     must say (C07): h is absent from the database, `used` is the prefix of K consumed so far, and the node h denotes
     sits on the requested path right after `used`: looking K ++ ks up below D0 is looking the rest up below that node
@@ -376,6 +390,11 @@ def missing_clauses(E, e, old_has, D0, K, ks, at=(0, 1)):
         rest = z3.Concat(HM.tail(K, z3.Length(used)), ks)
         out.append(("missing-node-is-on-the-path",
                     mk_bool(HM.hlk(D0, z3.Concat(K, ks)) == HM.hlk(HM.hnode_of_hash(h), rest))))
+    if need:
+        # structural form of the same statement (what get_proof's contract speaks about): proved for an arbitrary
+        # ghost hash in unit mode, handed to the caller at the reported hash in callee mode
+        out.append(("missing-node-is-dereferenced-by-the-key-s-walk",
+                    mk_bool(need_cond(E, D0, K, root, h) if direct else z3.Implies(h == GQ, need_cond(E, D0, K, root, GQ)))))
     return out
 
 
@@ -469,19 +488,19 @@ def tf_result_facts(E, D0, K):
     return make
 
 
-def mtn_make(E, old_has=None, D0=None, K=None):
+def mtn_make(E, old_has=None, D0=None, K=None, root=None):
     def make():
         e = ExcObj(mtn_cls(E), (objs.hash32(E, "missing"), HM.nibs(E, "traversed")))
         if old_has is not None:
-            for (_n, c) in missing_clauses(E, e, old_has, D0, K, E.ghost.get("ks")):
+            for (_n, c) in missing_clauses(E, e, old_has, D0, K, E.ghost.get("ks"), need=True, root=root, direct=True):
                 E.assume(c)
         return e
     return make
 
 
-def tf_cases_callee(E, ctx, D0, K):
+def tf_cases_callee(E, ctx, D0, K, root=None):
     return [Case("reached", make=tf_result_facts(E, D0, K)),
-            Case("missing-node", raises=mtn_cls(E), make=mtn_make(E, ctx.old_has(ctx.self.fields["db"]), D0, K))]
+            Case("missing-node", raises=mtn_cls(E), make=mtn_make(E, ctx.old_has(ctx.self.fields["db"]), D0, K, root))]
 
 
 def traverse_cases(E, ctx):
@@ -489,7 +508,7 @@ def traverse_cases(E, ctx):
     root = HM.bytes_of(ctx.root_hash)
     D0 = node_of_root(E, root)
     if not hasattr(ctx, "outcome"):
-        return tf_cases_callee(E, ctx, D0, K)
+        return tf_cases_callee(E, ctx, D0, K, root)
 
     def ens(res):
         n, rem = res
@@ -500,7 +519,8 @@ def traverse_cases(E, ctx):
         return [("view", mk_bool(HM.hlk(Dn, rt) == HM.hlk(D0, K))), ("remaining-is-a-suffix", mk_bool(suffix_of(rt, K)))]
     return [Case("reached", ensures=ens),
             Case("missing-node", raises=mtn_cls(E),
-                 exc=lambda e: missing_clauses(E, e, ctx.old_has(ctx.self.fields["db"]), D0, K, E.ghost.get("ks")))]
+                 exc=lambda e: missing_clauses(E, e, ctx.old_has(ctx.self.fields["db"]), D0, K, E.ghost.get("ks"),
+                                               need=True, root=root))]
 
 
 def get_internal_cases(E, ctx):
@@ -516,8 +536,8 @@ def get_internal_cases(E, ctx):
             SL.use(E, "prefix_antisym", rt, HNode.epath(Dn))
     old_has = ctx.old_has(ctx.self.fields["db"])
     return [Case("value", returns=lambda: SSeq(want, "bytes")),
-            Case("missing-node", raises=mtn_cls(E), make=mtn_make(E, old_has, D0, K),
-                 exc=lambda e: missing_clauses(E, e, old_has, D0, K, E.ghost.get("ks")))]
+            Case("missing-node", raises=mtn_cls(E), make=mtn_make(E, old_has, D0, K, root),
+                 exc=lambda e: missing_clauses(E, e, old_has, D0, K, E.ghost.get("ks"), need=True, root=root))]
 
 
 def get_cases(E, ctx):
@@ -534,12 +554,12 @@ def get_cases(E, ctx):
 def mtn_api_make(E, ctx, D0, K, root, with_prefix=True):
     e = ExcObj(objs.exc(E, "MissingTrieNode"), (objs.hash32(E, "missing"), SSeq(root, "bytes"), ctx.key,
                                                  HM.nibs(E, "prefix") if with_prefix else None))
-    for (_n, c) in mtn_api_clauses(E, ctx, e, D0, K, root, with_prefix):
+    for (_n, c) in mtn_api_clauses(E, ctx, e, D0, K, root, with_prefix, direct=True):
         E.assume(c)
     return e
 
 
-def mtn_api_clauses(E, ctx, e, D0, K, root, with_prefix=True):
+def mtn_api_clauses(E, ctx, e, D0, K, root, with_prefix=True, direct=False):
     """MissingTrieNode(h, root_hash, key, prefix) raised by a public entry point (C07): the report is truthful"""
     if len(e.args) < 4:
         return [("exception-carries-hash-root-key-prefix", False)]
@@ -547,7 +567,7 @@ def mtn_api_clauses(E, ctx, e, D0, K, root, with_prefix=True):
     out = [("names-the-root", ops.py_eq(e.args[1], SSeq(root, "bytes"))),
            ("names-the-key", ops.py_eq(e.args[2], ctx.key))]
     if with_prefix:
-        out += missing_clauses(E, e, old_has, D0, K, E.ghost.get("ks"), at=(0, 3))
+        out += missing_clauses(E, e, old_has, D0, K, E.ghost.get("ks"), at=(0, 3), need=True, root=root, direct=direct)
     else:
         out += [("hash-is-absent", mk_bool(z3.Not(z3.Select(old_has, HM.bytes_of(e.args[0])))))]
     return out
@@ -1820,7 +1840,9 @@ def gfp_cases(E, ctx):
                 ("no-offered-node-is-the-missing-one",
                  mk_bool(z3.Implies(z3.And(GJP >= 0, GJP < n), offered_hash(GJP) != h))),
                 ("the-missing-node-is-on-the-key's-path",
-                 mk_bool(HM.hlk(D0, z3.Concat(K, ks)) == HM.hlk(HM.hnode_of_hash(h), rest)))]
+                 mk_bool(HM.hlk(D0, z3.Concat(K, ks)) == HM.hlk(HM.hnode_of_hash(h), rest))),
+                ("the-missing-node-is-the-root-or-dereferenced-by-the-key's-walk",
+                 mk_bool(need_cond(E, D0, K, root, h)))]
     return [Case("proven-value", returns=lambda: SSeq(want, "bytes")),
             Case("bad-proof", raises=objs.exc(E, "BadTrieProof"), exc=withheld)]
 
@@ -2071,3 +2093,39 @@ def _register_get_proof(reg):
                                      setup=gp_setup, requires=gp_requires, props=("C03",)))
     reg.add("hexary_proof", Contract(H + "get_proof", ["self", "key"], gproof_cases,
                                      setup=lambda E: root_ref_setup(E, True), props=("C03",), callee=False))
+
+
+# ---------------------------------------------------------------------------------------------------
+# C03, completeness as a consequence of the two contracts: if the tuple offered to get_from_proof is the one get_proof
+# returned (on a trie that holds its nodes), the `bad-proof` case of get_from_proof cannot occur, so the call returns
+# hlk(root, key) = get(key).  Hypotheses are the *clauses of the two contracts*, built by the same functions the units
+# prove them with (gp_clauses / need_cond / offered_hash), closed over their ghost constants (each was proved for an
+# arbitrary value of its ghost), plus the meaning of the proof tuple's ghost hash set: a hash is in it only if some
+# offered node has that hash.
+
+def proof_composition_lemma(E):
+    E.ghost["hex_model"] = True
+    root = z3.Const("root", SeqI)
+    K = z3.Const("K", SeqI)
+    n = z3.Int("len(proof)")
+    D0 = node_of_root(E, root)
+    r = mk_pt(E, base="proof")
+    empty_h, empty_n = pt_of(())
+    j = z3.Int("j")
+    # producer (get_proof / proof): both hash-level clauses, for every hash
+    prod = [c for (name, c) in gp_clauses(E, D0, K, empty_h, empty_n, r)[:1]]
+    prod.append(mk_bool(z3.Implies(z3.And(root == GH, root != HM.blank_node_hash(E)), z3.Select(r.memH, GH))))
+    for c in prod:
+        E.assume(mk_bool(z3.ForAll([GH], c.t)))
+    # the offered tuple is that proof
+    E.assume(mk_bool(z3.ForAll([GH], z3.Implies(z3.Select(r.memH, GH),
+                                                 z3.Exists([j], z3.And(j >= 0, j < n, offered_hash(j) == GH))))))
+    # consumer (get_from_proof / bad-proof): the exception clauses about the missing hash h
+    h = z3.Const("missing", SeqI)
+    bad = z3.And(need_cond(E, D0, K, root, h),
+                 z3.ForAll([GJP], z3.Implies(z3.And(GJP >= 0, GJP < n), offered_hash(GJP) != h)))
+    E.prove("proof-composition/get_from_proof-accepts-the-proof-get_proof-returns", mk_bool(z3.Not(bad)), kind="lemma")
+
+
+def _register_proof_lemma(reg):
+    reg.add_lemma("hexary_proof", Lemma("lemma:hexary/proof_composition", ("C03",), proof_composition_lemma))
